@@ -121,50 +121,6 @@ pub struct WireOp {
     pub enc: u8,
 }
 
-fn stored_blocks(d: &[u8], out: &mut Vec<u8>) {
-    if d.is_empty() {
-        out.extend([1u8, 0, 0, 0xff, 0xff]);
-        return;
-    }
-    let n = d.chunks(65535).count();
-    for (i, c) in d.chunks(65535).enumerate() {
-        out.push(if i + 1 == n { 1 } else { 0 });
-        let l = c.len() as u16;
-        out.extend(l.to_le_bytes());
-        out.extend((!l).to_le_bytes());
-        out.extend(c);
-    }
-}
-
-/// A valid gzip stream (stored blocks only) whose content is `d`.
-fn gzip_stored(d: &[u8]) -> Vec<u8> {
-    let mut out = vec![0x1f, 0x8b, 8, 0, 0, 0, 0, 0, 0, 0xff];
-    stored_blocks(d, &mut out);
-    let mut crc = 0xffff_ffffu32;
-    for b in d {
-        crc ^= *b as u32;
-        for _ in 0..8 {
-            crc = if crc & 1 != 0 { (crc >> 1) ^ 0xedb8_8320 } else { crc >> 1 };
-        }
-    }
-    out.extend((!crc).to_le_bytes());
-    out.extend((d.len() as u32).to_le_bytes());
-    out
-}
-
-/// A valid zlib stream (what `Content-Encoding: deflate` means) whose content is `d`.
-fn zlib_stored(d: &[u8]) -> Vec<u8> {
-    let mut out = vec![0x78, 0x01];
-    stored_blocks(d, &mut out);
-    let (mut a, mut b) = (1u32, 0u32);
-    for x in d {
-        a = (a + *x as u32) % 65521;
-        b = (b + a) % 65521;
-    }
-    out.extend(((b << 16) | a).to_be_bytes());
-    out
-}
-
 #[derive(Clone, Debug, Serialize, Deserialize, PartialEq)]
 pub enum WOp {
     Wire(WireOp),
@@ -691,8 +647,8 @@ fn build(plan: &WirePlan, w: &World, op: &WireOp, cur_allow: &Option<HashSet<Uui
                 // the wire bytes ARE the upload: a body that happens to be a valid compressed stream
                 // is still an opaque payload
                 match op.enc {
-                    2 => d = Arc::new(gzip_stored(&d)),
-                    3 => d = Arc::new(zlib_stored(&d)),
+                    2 => d = Arc::new(ops::gzip_stored(&d)),
+                    3 => d = Arc::new(ops::zlib_stored(&d)),
                     _ => {}
                 }
             }
@@ -934,6 +890,8 @@ pub fn exec(plan: &WirePlan) -> RunOut {
         let is4xx = (400..500).contains(&raw.status);
         if unlisted {
             // C16: refused without reading or changing any stored state
+            // (a request that is unlisted AND otherwise defective may get either refusal: the pinned tree
+            // itself checks the content type before the allow-list)
             let otherwise_wellformed = b.class == Class::WellFormed;
             if otherwise_wellformed && !b.cid_ambiguous && raw.status != 403 {
                 out.violations.push(viol(&["C16"], "allow.not_403", format!("{} from unlisted client {} answered {} (want 403)", b.label, sid(&cid), raw.status)));
